@@ -104,7 +104,7 @@ structure FinRel (s5 s8 : State) (m : Nat) (v : Int) (saved : Option Nat) : Prop
   effD : ∀ i, i ≠ m → (s8.get i).dirty = true → (s5.get i).dirty = true ∨
     (i ∈ (s5.get m).subs ∧ saved ≠ some i ∧ (s5.get m).ver < (s8.get m).ver)
   flags : FlagRel s5 s8
-  logx : LogExt QuietEv s5 s8
+  logx : LogExt ChgEv s5 s8
   runs_m : (s8.get m).runs = (s5.get m).runs
 
 theorem finish_inv {p : Prog} {s5 s8 : State} {m : Nat} {v : Int} {saved : Option Nat}
@@ -294,8 +294,8 @@ theorem finish_frame {p : Prog} {s5 s8 : State} {m : Nat} {v : Int} {saved : Opt
     · exact .inl h
     · exact .inr ⟨m, (h5.edge m i).1 h.1, h.2.2⟩
   flags := fr.flags
-  logx := fr.logx.mono (fun ev hev i hi => absurd hi (hev.2 i))
-  runsx := RunsX.of_quiet fr.logx (fun i => by
+  logx := fr.logx.mono (fun ev hev i hi => absurd hi (hev.quiet.2 i))
+  runsx := RunsX.of_quiet (fr.logx.mono (fun _ h => h.quiet)) (fun i => by
     by_cases hi : i = m
     · subst hi; exact fr.runs_m
     · exact (Node.core_fields (fr.go i hi).1).2.2.2.2.2.2.2.2)
@@ -386,12 +386,12 @@ theorem finishRun_rel {p : Prog} {s5 : State} {m : Nat} (f : Nat) (old : Option 
         · subst hi; rw [g7m]; exact ⟨rfl, rfl, rfl⟩
         · rw [g7o i hi]; exact ⟨rfl, rfl, rfl⟩
       exact h57.trans sp.flags
-    have hlx8 : LogExt QuietEv s5 s8 := by
-      have h57 : LogExt QuietEv s5 s7e := by
+    have hlx8 : LogExt ChgEv s5 s8 := by
+      have h57 : LogExt ChgEv s5 s7e := by
         subst hs7e
         exact ⟨[.changed m], by simp [log7], fun ev hev => by
-          rw [List.mem_singleton.1 hev]; exact ⟨by intro i; simp, by intro i; simp⟩⟩
-      exact h57.trans sp.rel.logx
+          rw [List.mem_singleton.1 hev]; exact .inr ⟨_, rfl⟩⟩
+      exact h57.trans (sp.rel.logx.mono (fun _ h => h.chg))
     refine ⟨⟨?_, ?_, ?_, ?_, ?_, st8m, ?_, ?_, ?_, ?_, ?_, ?_, ?_, ?_, hfl8, hlx8, by rw [sp.rel.runs, ge, g7m]⟩, hch.symm, fun _ => by rw [verm]; omega, ?_, ?_⟩
     · rw [sp.rel.len]; subst hs7e; exact len7
     · rw [sp.rel.obs]; exact obs7e
@@ -494,10 +494,6 @@ def MemoOK (p : Prog) : Prop :=
   ∀ (m : Nat) (b : Expr), p[m]? = some (NodeDef.memo b) →
     b.readsBelow m = true ∧ b.noWrite = true ∧ b.readsData p = true
 
-/-- memo bodies use tracked reads only -/
-def MemoTracked (p : Prog) : Prop :=
-  ∀ (m : Nat) (b : Expr), p[m]? = some (NodeDef.memo b) → b.noUntracked = true
-
 theorem runMemo_spec {p : Prog} (hp : MemoOK p) {f : Nat} (hu : UpdOK p (upd p f) f) {s0 : State} {m : Nat}
     (h0 : InvR p s0) (hmf : m ≤ f) (hk : (s0.get m).kind = .memo) (hr : (s0.get m).running = false)
     (hst : (s0.get m).st ≠ .clean) (hlow : ∀ r, (s0.get r).running = true → m < r)
@@ -584,7 +580,7 @@ theorem runMemo_spec {p : Prog} (hp : MemoOK p) {f : Nat} (hu : UpdOK p (upd p f
   have h8 := finish_inv ep.inv ep.loc fr hrep' hsaved hH
   have fr58 := finish_frame ep.inv ep.loc fr
   have hver5 : (s5.get m).ver = (s0.get m).ver := ep.ver.trans (t.ver m)
-  refine ⟨h8, fr05.trans fr58, fr.obs, ?_, fun _ => fr.st_m, fr.subs_m.trans hsubs5, ?_, ?_, ?_, ?_, ?_⟩
+  refine ⟨h8, fr05.trans fr58, fr.obs, ?_, fun _ => fr.st_m, fr.subs_m.trans hsubs5, ?_, ?_, ?_, ?_, ?_, ?_⟩
   · intro i
     by_cases hi : i = m
     · subst hi; rw [hr]; exact fr.running_m
@@ -663,6 +659,15 @@ theorem runMemo_spec {p : Prog} (hp : MemoOK p) {f : Nat} (hu : UpdOK p (upd p f
       by_cases hw : w = m
       · subst hw; rw [fr.sources_m] at hy; exact hy
       · rw [(Node.core_fields (fr.go w hw).1).2.2.1] at hy; exact hy)
+  · -- the log is glitch-free
+    intro hwf htr
+    have g04 : StateGF p s0 s4 := StateGF.of_plain (t.logx.mono (fun ev hev => by
+      rcases hev with rfl | rfl
+      · exact ⟨fun _ _ _ h => (by cases h), fun _ h => (by cases h)⟩
+      · exact ⟨fun _ _ _ h => (by cases h), fun _ h => (by cases h)⟩)) (fr04.sigEq h0)
+    have g58 : StateGF p s5 s8 :=
+      StateGF.of_plain (fr.logx.mono (fun _ h => h.plain)) (fr58.sigEq ep.inv)
+    exact (g04.trans (ep.gf hwf htr)).trans g58
 
 /-! ## the `any` loop of `needs_update` -/
 
@@ -677,6 +682,7 @@ structure AnyPost (p : Prog) (s : State) (m : Nat) (l : List Nat) (r : State × 
   valCh : ValCh s r.1
   runRel : RunRel s r.1
   ss : SrcStatic p s → SrcStatic p r.1
+  gf : GFI p s r.1
 
 theorem anySrc_spec {p : Prog} {u : State → Nat → State × Bool} {f : Nat} (hu : UpdOK p u f)
     {m : Nat} (hmf : m ≤ f) : ∀ (l : List Nat) (s : State), InvR p s → (s.get m).kind = .memo →
@@ -688,7 +694,8 @@ theorem anySrc_spec {p : Prog} {u : State → Nat → State × Bool} {f : Nat} (
   | nil =>
     intro s h _ _ _ hnd _
     exact ⟨h, Frame.refl s m, rfl, fun _ => rfl, fun _ => ⟨fun _ hx => (by cases hx), hnd⟩,
-      fun hc => (by cases hc), ValCh.of_val_eq (fun _ => rfl), RunRel.of_eq (fun _ => rfl), fun h => h⟩
+      fun hc => (by cases hc), ValCh.of_val_eq (fun _ => rfl), RunRel.of_eq (fun _ => rfl), fun h => h,
+      GFI.refl p s⟩
   | cons x l ih =>
     intro s h hk hr hlow hnd hl
     have hxs : x ∈ (s.get m).sources := hl x List.mem_cons_self
@@ -712,7 +719,7 @@ theorem anySrc_spec {p : Prog} {u : State → Nat → State × Bool} {f : Nat} (
     by_cases hc : (ch || (true && (s1.get m).st == .dirty)) = true
     · rw [if_pos hc]
       refine ⟨hp.inv, fr1, hp.obs, hp.running, fun h' => (by cases h'), fun _ hruns => ?_, hp.valCh,
-        hp.runRel, hp.ss⟩
+        hp.runRel, hp.ss, hp.gf⟩
       simp only at hruns ⊢
       by_cases hch : ch = true
       · have hv : (s.get x).ver < (s1.get x).ver := hp.ver hch
@@ -743,7 +750,7 @@ theorem anySrc_spec {p : Prog} {u : State → Nat → State × Bool} {f : Nat} (
         fun i => (ih'.running i).trans (hp.running i), fun h2 => ?_, ih'.just,
         hp.valCh.trans ih'.valCh fr1 ih'.frame hp.obs,
         hp.runRel.trans ih'.runRel (fun i hi => (fr1.clean i hi).1) (fun i hi => (ih'.frame.clean i hi).1),
-        fun h => ih'.ss (hp.ss h)⟩
+        fun h => ih'.ss (hp.ss h), hp.gf.trans ih'.gf⟩
       have a2 := ih'.allClean h2
       refine ⟨fun y hy hky => ?_, a2.2⟩
       rcases List.mem_cons.1 hy with rfl | hy
@@ -832,7 +839,8 @@ theorem restamp_spec {p : Prog} {s : State} {m : Nat} (h : InvR p s) (hk : (s.ge
   refine ⟨hinv, ?_, hobs, fun i => (cf i).2.2.2.2.2.1, fun _ => stm, (cf m).2.2.2.1, fun hc => (by cases hc),
     fun o _ _ hd => .inl (by rw [← dE]; exact hd), ValCh.of_val_eq (fun i => (cf i).2.1),
     RunRel.of_eq (fun i => (cf i).2.2.2.2.2.2.2.2),
-    fun hs => hs.mono (fun w y hy => by rw [(cf w).2.2.1] at hy; exact hy)⟩
+    fun hs => hs.mono (fun w y hy => by rw [(cf w).2.2.1] at hy; exact hy),
+    GFI.of_eq hlog (fun i => (cf i).2.1)⟩
   refine ⟨hlen, fun i => (cf i).1, ?_, fun i => by rw [(cf i).2.2.2.2.2.2.2.1]; exact Nat.le_refl _,
     fun i _ => (cf i).2.2.2.2.2.2.2.1, ?_, fun hl i => (by rw [hlog]; exact hl i), fun i _ => hcore i,
     fun i _ hd => .inl (by rw [← dE]; exact hd), ?_, LogExt.of_eq hlog,
@@ -917,7 +925,7 @@ theorem upd_step {p : Prog} (hp : MemoOK p) {f : Nat} (hu : UpdOK p (upd p f) f)
           post.subs.trans cf.2.2.2.1, fun hc => (by rw [← cf.2.2.2.2.2.2.2.1]; exact post.ver hc),
           hobsD r2.1 post.frame post.obsD, ap.valCh.trans post.valCh fr1 post.frame ap.obs,
           ap.runRel.trans post.runRel (fun i hi => (fr1.clean i hi).1) (fun i hi => (post.frame.clean i hi).1),
-          fun h => post.ss (ap.ss h)⟩
+          fun h => post.ss (ap.ss h), ap.gf.trans post.gf⟩
       · rw [if_neg hn]
         have hn' : need = false := by simpa using hn
         have ac := ap.allClean hn'
@@ -930,7 +938,7 @@ theorem upd_step {p : Prog} (hp : MemoOK p) {f : Nat} (hu : UpdOK p (upd p f) f)
           post.subs.trans cf.2.2.2.1, fun hc => (by cases hc), hobsD s2 post.frame post.obsD,
           ap.valCh.trans post.valCh fr1 post.frame ap.obs,
           ap.runRel.trans post.runRel (fun i hi => (fr1.clean i hi).1) (fun i hi => (post.frame.clean i hi).1),
-          fun h => post.ss (ap.ss h)⟩
+          fun h => post.ss (ap.ss h), ap.gf.trans post.gf⟩
   · have hk' : ((s.get m).kind != .memo) = true := by
       cases hkk : (s.get m).kind <;> simp_all
     rw [hk']
